@@ -100,7 +100,7 @@ class Executor(HeapMixin, ExprMixin, CallMixin, ContractMixin, StmtMixin):
         self.comp_oracle_stack = []
         self.no_frame = False
         self.allowed_writes = []
-        self.class_ids = {}
+        self.class_ids = {k: i + 1 for i, k in enumerate(sorted(reg.classes))}
         self.local_funcs = {}
         self.cur_state = None
         self.float_max = z3.RealVal(repr(sys.float_info.max))
@@ -170,12 +170,11 @@ class Executor(HeapMixin, ExprMixin, CallMixin, ContractMixin, StmtMixin):
                 raise Unsupported(f"parameter {n} of {c.qualname} has no kind in its contract")
         for n in pnames:
             ks = c.params[n]
-            optional = ks.endswith("?")
-            kind = parse_kind(ks.rstrip("?"), self.reg.opaque)
+            kind = parse_kind(ks, self.reg.opaque)
             v = self.fresh_value("p_" + n, kind)
             env[n] = v
             if isinstance(kind, Ref):
-                st.assume(z3.And(v.term >= (0 if optional else 1), v.term < self.top0))
+                st.assume(self.ref_wf(st, v, self.top0))
         if fd.args.kwarg is not None:
             env[fd.args.kwarg.arg] = V(FN, FuncRef("kwargs", items={}))
         if fd.args.vararg is not None:
@@ -194,10 +193,10 @@ class Executor(HeapMixin, ExprMixin, CallMixin, ContractMixin, StmtMixin):
         c = self.c
         try:
             mod = self.load_module(c.file)
-            fd = mod["defs"].get(c.qualname)
+            fd = mod["defs"].get(c.srcname)
             if fd is None:
                 raise Unsupported(f"{c.qualname} not found in {c.file}")
-            res.sha, a, b = unit_source_hash(c.file, c.qualname)
+            res.sha, a, b = unit_source_hash(c.file, c.srcname)
             res.lines = (a, b)
             self.file, self.module = c.file, mod
             self.module_consts, self.module_funcs, self.module_imports = mod["consts"], mod["funcs"], mod["imports"]
@@ -291,7 +290,7 @@ class Executor(HeapMixin, ExprMixin, CallMixin, ContractMixin, StmtMixin):
         c = self.c
         rk = None
         if c.returns and c.returns != "any":
-            rk = parse_kind(c.returns.rstrip("?"), self.reg.opaque)
+            rk = parse_kind(c.returns, self.reg.opaque)
             try:
                 if rk == NONE and result.kind == NONE:
                     pass
